@@ -261,7 +261,7 @@ var rePath = regexp.MustCompile(`"?/[^ :"]+"?`)
 func C11(r *ck.Run) {
 	requireInstrumented()
 	r.Level = "fault_enumeration"
-	r.Rule("for every victim operation (PutObject new / overwrite / nested / with tags / with tags+legal hold+retention, CopyObject, UploadPart re-upload, CompleteMultipartUpload new / overwrite, DeleteObject plain / nested with parent pruning / by version id) × storage configuration {O_TMPFILE, named temp} × {xattr, sidecar} × {unversioned, versioning enabled}: the process is killed before EVERY file-system step of the operation (the logical thread is frozen before step i, its file descriptors are closed, deferred Go code does not reach the file system), a new backend instance is started on the same storage and everything the API shows about the key is compared with the complete previous and the complete new state; distinct = (configuration, victim, crash point)")
+	r.Rule("for every victim operation (PutObject new / overwrite / nested / with tags / with tags+legal hold+retention, CopyObject, UploadPart re-upload, CompleteMultipartUpload new / overwrite, DeleteObject plain / nested with parent pruning / by version id) × storage configuration {O_TMPFILE, named temp} × {xattr, sidecar} × {unversioned, versioning enabled}: the process is killed before EVERY file-system step of the operation (the logical thread is frozen before step i, its file descriptors are closed, deferred Go code does not reach the file system), a new backend instance is started on the same storage and everything the API shows about the key is compared with the complete previous and the complete new state (an interrupted multipart completion that left the previous state must be repeatable); distinct = (configuration, victim, crash point)")
 	r.Assume("a killed process loses its file descriptors and runs no deferred code; page-cache contents survive (process crash, not power loss); single syscalls are atomic")
 	cfgs := []pxCfg{{}, {NoTmp: true}, {Versioning: true}, {NoTmp: true, Versioning: true}}
 	if r.Thorough() {
@@ -370,6 +370,14 @@ func c11RunVictim(r *ck.Run, st *pxStore, v c11Victim) {
 			det["window"] = after + " / " + before
 			r.Violation(ck.JoinSig("crash", v.Name, metaClass(st.Cfg), "neither-previous-nor-new-state:"+c11DiffClass(pre2, post, got)), det)
 			continue
+		}
+		// an interrupted completion can be repeated by the client with what it was given (upload id, part ETags)
+		if strings.HasPrefix(v.Name, "CompleteMultipartUpload") && (got == pre2 || got == pre) {
+			if err := v.Run(st, st.B, ctxm); err != nil {
+				det["retry_error"] = err.Error()
+				r.Violation(ck.JoinSig("crash", v.Name, metaClass(st.Cfg), "repeating-the-interrupted-completion-fails:"+errClassAPI(err)), det)
+				continue
+			}
 		}
 		// the acknowledged unrelated object is still there
 		og, err := st.B.GetObject(st.ctx(), &s3.GetObjectInput{Bucket: sp(c11Bucket), Key: sp("other/acked"), Range: sp("")})
